@@ -12,7 +12,7 @@ Property oracle (independent of the Lean model and of the code's formulas):
 * edit distance = naive memoised Levenshtein recursion on suffixes; banded: exact if lev <= maxdiff,
   else > maxdiff.
 """
-import functools, itertools, json, sys
+import functools, itertools, json, os, sys
 
 RULE = ("genotype cases: constructor from an arbitrary-order allele list, index, as_vector, ploidy, save/restore, "
         "restore from (index, ploidy), ==/!=/< on pairs; non-trivial = ploidy >= 2 with >= 2 distinct alleles (or a pair of such). "
@@ -93,6 +93,13 @@ def lev_naive(s, t):
 
 # ------------------------------------------------------------------------------------------------ implementation side
 
+def immortal(obj):
+    """__setstate__ deletes thisptr before the throwing constructor: the object is left dangling and its dealloc
+    would abort the process (double free).  Leak it so that a broken implementation yields a report, not a crash."""
+    import ctypes
+    ctypes.pythonapi.Py_IncRef(ctypes.py_object(obj))
+
+
 def impl_geno_obs(Genotype, g):
     st = g.__getstate__()
     h = Genotype([])
@@ -100,6 +107,7 @@ def impl_geno_obs(Genotype, g):
         h.__setstate__(st)
         restored = {"vector": list(h.as_vector()), "eq": bool(h == g)}
     except RuntimeError as e:
+        immortal(h)
         restored = err_of(e)
     return {"vector": list(g.as_vector()), "index": g.get_index(), "ploidy": g.get_ploidy(),
             "state": [int(st[0]), int(st[1])], "restored": restored}
@@ -129,6 +137,7 @@ def run_state(Genotype, index, ploidy):
     try:
         h.__setstate__((index, ploidy))
     except RuntimeError as e:
+        immortal(h)
         return None, err_of(e)
     return h, impl_geno_obs(Genotype, h)
 
@@ -139,6 +148,13 @@ def run(ctx):
     import copy, pickle
     from whatshap.core import Genotype, binomial_coefficient
     from whatshap.align import edit_distance
+    import whatshap.core, whatshap.align
+    if ctx.overlay:
+        # the overlay can be pruned by a concurrent check of another property; never silently test /repo's installed build
+        for mod in (whatshap.core, whatshap.align):
+            if not os.path.realpath(mod.__file__).startswith(os.path.realpath(ctx.overlay) + os.sep):
+                from harness.common import Infra
+                raise Infra(f"{mod.__name__} was imported from {mod.__file__}, not from the overlay {ctx.overlay}")
     rng = ctx.rng
     batch, meta = [], []
 
@@ -222,9 +238,19 @@ def run(ctx):
         obs = {"eq": bool(ga == gb), "ne": bool(ga != gb), "lt": bool(ga < gb)}
         ctx.evaluated()
         sa, sb = sorted(a), sorted(b)
-        if obs["eq"] != (sa == sb) or obs["ne"] != (sa != sb):
-            ctx.fail(f"{sa} == {sb} is {obs['eq']}, != is {obs['ne']}", case, key="cmp-eq")
-        if len(a) == len(b):
+        if obs["ne"] == obs["eq"]:
+            ctx.fail(f"{sa} == {sb} is {obs['eq']} but != is {obs['ne']}", case, key="cmp-ne")
+        if len(a) != len(b):
+            # the property speaks about one ploidy at a time; across ploidies the code compares the words (==) and the
+            # bare indices (<).  Compared with the model, but a difference is only recorded, never an alarm.
+            if model:
+                ans = ctx.model.ask("c19.cmp", a=list(a), b=list(b))
+                if ans != obs:
+                    ctx.observe(f"cross-ploidy comparison differs from the model (outside the property): {sa} vs {sb}: impl {obs}, model {ans}")
+            return
+        if obs["eq"] != (sa == sb):
+            ctx.fail(f"{sa} == {sb} is {obs['eq']}", case, key="cmp-eq")
+        if True:
             ra, rb = rank(sa), rank(sb)
             if obs["eq"] != (ra == rb):
                 ctx.fail(f"{sa} == {sb} is {obs['eq']} but indices are {ra}, {rb}", case, key="cmp-eq-index")
@@ -365,10 +391,16 @@ def run(ctx):
             do_cmp(a, b, ga, gb, model=(rng.random() < pm))
     ctx.extra["exhaustive_pairs"] = pairs
 
+    def plenty():
+        """a broken implementation is already demonstrated: stop generating (restores can take very long on broken code)"""
+        return len(ctx.fails) > 300
+
     # ---------------------------------------------------------------- genotypes: sampled up to the limits
-    n_big = (600 if ctx.quick else 6000) * ctx.scale
+    n_big = (1500 if ctx.quick else 30000) * ctx.scale
     bigs = []
     for i in range(n_big):
+        if plenty():
+            break
         p = rng.randrange(0, MAXP + 1)
         a = rng.randrange(1, MAXA + 1)
         style = rng.random()
@@ -385,7 +417,7 @@ def run(ctx):
         do_state(rng.randrange(cnt), p, a)
         if i % 7 == 0:
             do_state(cnt - 1, p, a)
-    for i in range(n_big):
+    for i in range(n_big if bigs else 0):
         (a, ga), (b, gb) = rng.choice(bigs), rng.choice(bigs)
         if rng.random() < 0.5:
             b = list(a); gb = None
@@ -394,8 +426,9 @@ def run(ctx):
             rng.shuffle(b)
         do_cmp(a, b, ga, gb)
     # the limits themselves
+    if not plenty():
+        do_state(n_multisets(14, 16) - 1, 14, 16)
     do_geno([15] * 14); do_geno([0] * 14); do_geno([0] * 15); do_geno([16]); do_geno([3, 16, 1]); do_geno([0] * 16)
-    do_state(n_multisets(14, 16) - 1, 14, 16)
     do_state(15, 1, 16)
     # restore of a state OUTSIDE the limits (first genotype with allele 16; ploidy 15): not part of the property.
     # __setstate__ deletes thisptr before the constructor throws, so the object is left dangling and the process
@@ -418,6 +451,8 @@ def run(ctx):
     words = [bytes(w) for n in range(L2 + 1) for w in itertools.product(b"AC", repeat=n)]
     cnt = 0
     for s in words:
+        if len(ctx.fails) > 3000:
+            break
         for t in words:
             do_edit(s, t, as_str=(cnt % 5 == 0)); cnt += 1
     ctx.extra["exhaustive_string_pairs_AC_len_le_%d" % L2] = cnt
@@ -431,7 +466,7 @@ def run(ctx):
     flush()
 
     # ---------------------------------------------------------------- edit distance: random longer
-    n_rand = (1200 if ctx.quick else 15000) * ctx.scale
+    n_rand = (4000 if ctx.quick else 60000) * ctx.scale
 
     def rand_word(n, alpha):
         return bytes(rng.choice(alpha) for _ in range(n))
@@ -450,8 +485,10 @@ def run(ctx):
         return bytes(s)
 
     for i in range(n_rand):
+        if len(ctx.fails) > 3000:
+            break
         alpha = rng.choice([b"AC", b"ACGT", b"ACGT", bytes(range(1, 256))])
-        n = rng.choice([3, 7, 12, 20, 35, 60])
+        n = rng.choice([3, 7, 12, 20, 35, 60] if ctx.quick else [3, 7, 12, 20, 35, 60, 120])
         s = rand_word(rng.randrange(0, n + 1), alpha)
         style = rng.random()
         if style < 0.55:
